@@ -618,7 +618,9 @@ def judge_model(comp, sxv, tree, enc_out, dec_out, out):
 # ------------------------------------------------------------------ generators
 def rand_thr(rng):
     return rng.choice([0.5, 0.9, 0.1, 0.3, 0.75, 1, 0, 1e-3, 0.30000000000000004, 2.5, 1e-320, 1e22, "inf",
-                       rng.random(), rng.randint(0, 3), round(rng.random(), 2)])
+                       rng.random(), rng.randint(0, 3), round(rng.random(), 2),
+                       # values whose repr is in exponent form with a fractional mantissa / without one
+                       2.5e-05, 3.75e-07, 1.5e+16, 1e-05, 1e16, rng.random() * 10.0 ** rng.randint(-12, -5), rng.random() * 10.0 ** rng.randint(16, 30)])
 
 
 def rand_mzh(rng, full=None):
@@ -721,7 +723,7 @@ def single_variations(rng):
         v(input="UNMATCHED_INSTANCE", matcher={"kind": "merge", "metric": m})
         v(dmetric=m, dthr=0.5)
         v(inst=[m]); v(glob=[m])
-    for t in [0.5, 0.9, 0.55, 0.1, 1, 0, 1e-320, 1e22, "inf", 0.30000000000000004]:
+    for t in [0.5, 0.9, 0.55, 0.1, 1, 0, 1e-320, 1e22, "inf", 0.30000000000000004, 2.5e-05, 1.5e+16]:
         v(input="UNMATCHED_INSTANCE", matcher={"kind": "naive", "thr": t})
         v(input="UNMATCHED_INSTANCE", matcher={"kind": "merge", "thr": t})
         v(dmetric="IOU", dthr=t)
